@@ -365,6 +365,8 @@ def run_shard(ctx, shard):
         if LAYOUTS[lay] and any(r for _, r in LAYOUTS[lay]):
             acc.nt_disjoint += 1
         acc.count("cases_" + part)
+        if part == "P4":
+            acc.count("P4_layout:" + lay)
         acc.count("signers_encoded", len(shapes))
         for key, msg in judge(case):
             acc.violation(key, {"case": [part, lay, shapes, cm]}, msg)
@@ -382,6 +384,11 @@ def replay(ctx, w):
 def finalize(ctx, acc):
     if len(acc.outcomes) < 200:
         acc.harness_error("vacuous: only %d distinct (layout, signer count, digest shape) classes" % len(acc.outcomes))
+    nshape = len(SHAPES) + (len(SHAPES_MORE) if ctx.thorough else 0)
+    per_layout = sum(nshape ** n for n in range(4)) * len(COMMENTS)
+    for lay in LAYOUTS:
+        if acc.extra.get("P4_layout:" + lay) != per_layout:
+            acc.harness_error("P4 layout %s: %r cases judged, %d in the space" % (lay, acc.extra.get("P4_layout:" + lay), per_layout))
     for p in ("P1", "P2", "P3", "P4"):
         if not acc.extra.get("cases_" + p):
             acc.harness_error("vacuous: part %s empty" % p)
